@@ -1,12 +1,16 @@
 From Coq Require Import List Bool Arith.
-From Y0 Require Import Base.ListSet Graph.MixedGraph Dsl.Syntax Dsl.Build Alg.Id Alg.Cg Alg.IdStar Corr.Common.
+From Y0 Require Import Base.ListSet Graph.MixedGraph Dsl.Syntax Dsl.Build Alg.Id Alg.Cg Alg.IdStar Sem.Scm Sem.CfSem Corr.Common.
 Import ListNotations.
 
 (* code: 0 expression, 1 Unidentifiable, 2+ exception *)
 Inductive case :=
 | CCg (g : mg nat) (ev : event) (topo : list nat) (out_g : mg var) (out_ev : option event)
 | CIdStar (g : mg nat) (ev : event) (topo : list nat) (code : nat) (out : expr)
-| CIdcStar (g : mg nat) (outcomes conditions : event) (topo : list nat) (code : nat) (out : expr).
+| CIdcStar (g : mg nat) (outcomes conditions : event) (topo : list nat) (code : nat) (out : expr)
+(* the Python functional-SCM oracle against the formal semantics Sem/Scm.v: [tabs] gives, for each sampled exogenous state, every node's parents and
+   its response table at that state (rows: values of the parents -> value); [base] the base assignment; [expected] the oracle's verdict
+   'the event is true at this state' for each state *)
+| CSem (order : list nat) (tabs : list (list (nat * (list nat * list (list bool * bool))))) (base : list (nat * bool)) (ev : event) (expected : list bool).
 
 Definition opt_ev_eqb (a b : option event) : bool :=
   match a, b with Some x, Some y => ev_eqb x y | None, None => true | _, _ => false end.
@@ -19,6 +23,16 @@ Definition matches (code : nat) (out : expr) (r : id_result) : bool :=
   | _, _ => false
   end.
 
+Definition lookup_row (rows : list (list bool * bool)) (key : list bool) : bool :=
+  match find (fun r => eqb (fst r) key) rows with Some r => snd r | None => false end.
+Definition sem_f (tabs : list (list (nat * (list nat * list (list bool * bool))))) (v : nat) (x : nat -> bool) (s : nat) : bool :=
+  match find (fun e => Nat.eqb (fst e) v) (nth s tabs []) with
+  | Some e => lookup_row (snd (snd e)) (map x (fst (snd e)))
+  | None => false
+  end.
+Definition sem_rho (base : list (nat * bool)) (i : nat * bool) : bool :=
+  xorb (match find (fun e => Nat.eqb (fst e) (fst i)) base with Some e => snd e | None => false end) (snd i).
+
 Definition check (c : case) : bool :=
   match c with
   | CCg g ev topo out_g out_ev =>
@@ -26,4 +40,6 @@ Definition check (c : case) : bool :=
               (make_counterfactual_graph_all (gv g) ev (map V topo))
   | CIdStar g ev topo code out => existsb (matches code out) (id_star g topo (S (4 * List.length (nodes g))) ev)
   | CIdcStar g o c topo code out => existsb (matches code out) (idc_star g topo (S (List.length c)) o c)
+  | CSem order tabs base ev expected =>
+      eqb (map (fun s => event_true nat (sem_f tabs) (sem_rho base) order ev s) (seq 0 (List.length tabs))) expected
   end.
